@@ -60,21 +60,21 @@ type kinst struct {
 type kwallet struct {
 	keys     *sim.WalletKeys
 	id       string
-	created  bool // created by CreateWallet (random entropy)
+	created  bool        // created by CreateWallet (random entropy)
 	issuedIn map[int]int // instance -> number of external addresses there
 	classes  map[int][]uint16
 }
 
 type kworld struct {
-	node    *sim.Node
-	inst    []*kinst
-	wallets []*kwallet
-	trace   []string
-	errs    []string
-	exports []string
+	node                        *sim.Node
+	inst                        []*kinst
+	wallets                     []*kwallet
+	trace                       []string
+	errs                        []string
+	exports                     []string
 	refused, accepted, restarts int
-	maxCompared int
-	pubPass string
+	maxCompared                 int
+	pubPass                     string
 }
 
 func (k *kworld) logf(f string, a ...interface{}) { k.trace = append(k.trace, fmt.Sprintf(f, a...)) }
